@@ -694,7 +694,7 @@ func runCase(w *out.W, id string, sc *scenario, tags ...string) {
 			w.Violation(id, class, fmt.Sprintf("%s: %s; plan %s; case: %s", ep.name, v.msg, showOut(r.outp), line))
 		}
 		if ep.name == "tidb" {
-			// C04_tidb_unsafe_class / the conjectured exact exception: the TiDB plan fails iff a ModifyForeignKey
+			// C04_tidb_safe_exact: the TiDB plan fails iff a ModifyForeignKey
 			// is re-pointed to a table the change set creates
 			if hyp {
 				w.Count("hyp:WF+consistent")
@@ -1351,7 +1351,7 @@ func genLarge(w *out.W, tier string) {
 		count = 60000
 	}
 	if tidbMode {
-		count = count / 5
+		count = count / 12
 	}
 	for k := 0; k < count; k++ {
 		n := 13 + r.Intn(28)
